@@ -87,6 +87,11 @@ SPIF_TYPE(strclass) SPIF_STRCLASS_VAR(ustr) = &s_class;
 
 const size_t buff_inc = 4096;
 
+/* Read-only text of a string object: an empty string has no buffer (s == NULL). */
+#define USTR_TEXT(obj)  ((const spif_charptr_t) ((SPIF_USTR_ISNULL(obj) || !((obj)->s)) \
+                                                 ? ((spif_charptr_t) "") \
+                                                 : ((obj)->s)))
+
 spif_ustr_t
 spif_ustr_new(void)
 {
@@ -424,7 +429,7 @@ spif_ustr_casecmp(spif_ustr_t self, spif_ustr_t other)
     int c;
 
     SPIF_OBJ_COMP_CHECK_NULL(self, other);
-    c = strcasecmp((char *) SPIF_USTR_STR(self), (char *) SPIF_USTR_STR(other));
+    c = strcasecmp((char *) USTR_TEXT(self), (char *) USTR_TEXT(other));
     return SPIF_CMP_FROM_INT(c);
 }
 
@@ -434,7 +439,7 @@ spif_ustr_casecmp_with_ptr(spif_ustr_t self, spif_charptr_t other)
     int c;
 
     SPIF_OBJ_COMP_CHECK_NULL(self, other);
-    c = strcasecmp((char *) SPIF_USTR_STR(self), (char *) other);
+    c = strcasecmp((char *) USTR_TEXT(self), (char *) other);
     return SPIF_CMP_FROM_INT(c);
 }
 
@@ -456,7 +461,7 @@ spif_ustr_cmp(spif_ustr_t self, spif_ustr_t other)
     int c;
 
     SPIF_OBJ_COMP_CHECK_NULL(self, other);
-    c = strcmp((char *) SPIF_USTR_STR(self), (char *) SPIF_USTR_STR(other));
+    c = strcmp((char *) USTR_TEXT(self), (char *) USTR_TEXT(other));
     return SPIF_CMP_FROM_INT(c);
 }
 
@@ -466,7 +471,7 @@ spif_ustr_cmp_with_ptr(spif_ustr_t self, spif_charptr_t other)
     int c;
 
     SPIF_OBJ_COMP_CHECK_NULL(self, other);
-    c = strcmp((char *) SPIF_USTR_STR(self), (char *) other);
+    c = strcmp((char *) USTR_TEXT(self), (char *) other);
     return SPIF_CMP_FROM_INT(c);
 }
 
@@ -492,10 +497,10 @@ spif_ustr_find(spif_ustr_t self, spif_ustr_t other)
 
     ASSERT_RVAL(!SPIF_USTR_ISNULL(self), ((spif_stridx_t) -1));
     REQUIRE_RVAL(!SPIF_USTR_ISNULL(other), ((spif_stridx_t) -1));
-    tmp = strstr((const char *) SPIF_USTR_STR(self),
-                 (const char *) SPIF_USTR_STR(other));
+    tmp = strstr((const char *) USTR_TEXT(self),
+                 (const char *) USTR_TEXT(other));
     if (tmp) {
-        return (spif_stridx_t) ((spif_long_t) tmp - (spif_long_t) (SPIF_USTR_STR(self)));
+        return (spif_stridx_t) ((spif_long_t) tmp - (spif_long_t) (USTR_TEXT(self)));
     } else {
         return (spif_stridx_t) (self->len);
     }
@@ -508,10 +513,10 @@ spif_ustr_find_from_ptr(spif_ustr_t self, spif_charptr_t other)
 
     ASSERT_RVAL(!SPIF_USTR_ISNULL(self), ((spif_stridx_t) -1));
     REQUIRE_RVAL((other != (spif_charptr_t) NULL), ((spif_stridx_t) -1));
-    tmp = strstr((const char *) SPIF_USTR_STR(self),
+    tmp = strstr((const char *) USTR_TEXT(self),
                  (const char *) other);
     if (tmp) {
-        return (spif_stridx_t) ((spif_long_t) tmp - (spif_long_t) (SPIF_USTR_STR(self)));
+        return (spif_stridx_t) ((spif_long_t) tmp - (spif_long_t) (USTR_TEXT(self)));
     } else {
         return (spif_stridx_t) (self->len);
     }
@@ -523,9 +528,9 @@ spif_ustr_index(spif_ustr_t self, spif_char_t c)
     char *tmp;
 
     ASSERT_RVAL(!SPIF_USTR_ISNULL(self), ((spif_stridx_t) -1));
-    tmp = index((const char *) SPIF_USTR_STR(self), c);
+    tmp = index((const char *) USTR_TEXT(self), c);
     if (tmp) {
-        return (spif_stridx_t) ((spif_long_t) tmp - (spif_long_t) (SPIF_USTR_STR(self)));
+        return (spif_stridx_t) ((spif_long_t) tmp - (spif_long_t) (USTR_TEXT(self)));
     } else {
         return (spif_stridx_t) (self->len);
     }
@@ -537,7 +542,7 @@ spif_ustr_ncasecmp(spif_ustr_t self, spif_ustr_t other, spif_ustridx_t cnt)
     int c;
 
     SPIF_OBJ_COMP_CHECK_NULL(self, other);
-    c = strncasecmp((char *) SPIF_USTR_STR(self), (char *) SPIF_USTR_STR(other), cnt);
+    c = strncasecmp((char *) USTR_TEXT(self), (char *) USTR_TEXT(other), cnt);
     return SPIF_CMP_FROM_INT(c);
 }
 
@@ -547,7 +552,7 @@ spif_ustr_ncasecmp_with_ptr(spif_ustr_t self, spif_charptr_t other, spif_ustridx
     int c;
 
     SPIF_OBJ_COMP_CHECK_NULL(self, other);
-    c = strncasecmp((char *) SPIF_USTR_STR(self), (char *) other, cnt);
+    c = strncasecmp((char *) USTR_TEXT(self), (char *) other, cnt);
     return SPIF_CMP_FROM_INT(c);
 }
 
@@ -557,7 +562,7 @@ spif_ustr_ncmp(spif_ustr_t self, spif_ustr_t other, spif_ustridx_t cnt)
     int c;
 
     SPIF_OBJ_COMP_CHECK_NULL(self, other);
-    c = strncmp((char *) SPIF_USTR_STR(self), (char *) SPIF_USTR_STR(other), cnt);
+    c = strncmp((char *) USTR_TEXT(self), (char *) USTR_TEXT(other), cnt);
     return SPIF_CMP_FROM_INT(c);
 }
 
@@ -567,7 +572,7 @@ spif_ustr_ncmp_with_ptr(spif_ustr_t self, spif_charptr_t other, spif_ustridx_t c
     int c;
 
     SPIF_OBJ_COMP_CHECK_NULL(self, other);
-    c = strncmp((char *) SPIF_USTR_STR(self), (char *) other, cnt);
+    c = strncmp((char *) USTR_TEXT(self), (char *) other, cnt);
     return SPIF_CMP_FROM_INT(c);
 }
 
@@ -634,9 +639,9 @@ spif_ustr_rindex(spif_ustr_t self, spif_char_t c)
     char *tmp;
 
     ASSERT_RVAL(!SPIF_USTR_ISNULL(self), ((spif_stridx_t) -1));
-    tmp = rindex((const char *) SPIF_USTR_STR(self), c);
+    tmp = rindex((const char *) USTR_TEXT(self), c);
     if (tmp) {
-        return (spif_stridx_t) ((spif_long_t) tmp - (spif_long_t) (SPIF_USTR_STR(self)));
+        return (spif_stridx_t) ((spif_long_t) tmp - (spif_long_t) (USTR_TEXT(self)));
     } else {
         return (spif_stridx_t) (self->len);
     }
@@ -805,14 +810,14 @@ double
 spif_ustr_to_float(spif_ustr_t self)
 {
     ASSERT_RVAL(!SPIF_USTR_ISNULL(self), (double) NAN);
-    return (double) (strtod((const char *)SPIF_USTR_STR(self), (char **) NULL));
+    return (double) (strtod((const char *)USTR_TEXT(self), (char **) NULL));
 }
 
 size_t
 spif_ustr_to_num(spif_ustr_t self, int base)
 {
     ASSERT_RVAL(!SPIF_USTR_ISNULL(self), ((size_t) -1));
-    return (size_t) (strtoul((const char *) SPIF_USTR_STR(self), (char **) NULL, base));
+    return (size_t) (strtoul((const char *) USTR_TEXT(self), (char **) NULL, base));
 }
 
 spif_bool_t
